@@ -81,8 +81,11 @@ func (x *Exec) spawn(fv FuncV, args []Val, site string) {
 	g.vc[g.id] = 1
 	me.vc[me.id]++
 	x.gors = append(x.gors, g)
-	if len(x.gors) > 8 {
+	if len(x.gors) > 8 && x.opts.Sched != "seq" {
 		panic(unsupported{"more than 8 goroutines"})
+	}
+	if len(x.gors) > 2000 {
+		panic(unsupported{"more than 2000 goroutines"})
 	}
 }
 
@@ -105,7 +108,7 @@ func (x *Exec) pick(cands []*gor) *gor {
 	if len(cands) == 0 {
 		return nil
 	}
-	if x.opts.Sched == "join" {
+	if x.opts.Sched == "join" || x.opts.Sched == "seq" {
 		// a blocked goroutine that can continue does so at once (parent first)
 		for _, g := range cands {
 			if g.started && g.waitOn != nil {
@@ -113,7 +116,7 @@ func (x *Exec) pick(cands []*gor) *gor {
 			}
 		}
 	}
-	if len(cands) == 1 {
+	if len(cands) == 1 || x.opts.Sched == "seq" {
 		return cands[0]
 	}
 	alts := make([]string, len(cands))
